@@ -272,16 +272,15 @@ class H(Harness):
                         out.append(self._mk(kind, nn, es, samples, perm))
         # linspace sample counts x rings with a highly divisible number of elements: the requested points
         # include binary64 neighbours of j/M (e.g. 11/33 computed by linspace lies one ulp above 1/3)
-        counts = [34, 46, 67] if tier == 'quick' else list(range(26, 102))
-        Ms = [6, 12] if tier == 'quick' else [3, 6, 12, 24]
-        for cnt in counts:
-            for M in Ms:
+        hot = [34, 46, 67, 76, 91, 94]
+        pairs = [(c, M) for c in hot[:3] for M in (6, 12)] if tier == 'quick' else \
+            [(c, 12) for c in range(26, 102)] + [(c, M) for c in hot for M in (3, 6, 24)]
+        for cnt, M in pairs:
+            if True:
                 if not floats_agree(M, sample_points(cnt)):
                     continue
-                ring = [(i, (i + 1) % M) for i in range(M)] if M >= 3 else [(0, 1)]
+                ring = [(i, (i + 1) % M) for i in range(M)]
                 for kind in ('bond', 'site'):
-                    if self._M(kind, M, ring) != M:
-                        continue
                     perm = [(7 * i + 3) % M for i in range(M)] if math.gcd(7, M) == 1 else list(range(M))[::-1]
                     out.append(self._mk(kind, M, ring, cnt, perm))
         return out
